@@ -56,6 +56,15 @@ def grouping_key(ctx, res):
             def entries(d, depth=0):
                 """(key, value) of a dict display with `**other` displays spliced in."""
                 d = lc.value_of(d.id) if isinstance(d, ast.Name) and lc.value_of(d.id) is not None else d
+                if isinstance(d, ast.Call) and isinstance(d.func, ast.Name) and d.func.id == "dict" and depth <= 4:
+                    for a in d.args:  # dict(other, k=v)
+                        yield from entries(a, depth + 1)
+                    for k in d.keywords:
+                        if k.arg is None:
+                            yield from entries(k.value, depth + 1)
+                        else:
+                            yield ast.Constant(value=k.arg), k.value
+                    return
                 if not isinstance(d, ast.Dict) or depth > 4:
                     return
                 for ik, iv in zip(d.keys, d.values):
@@ -82,6 +91,11 @@ def grouping_key(ctx, res):
                 forms = list(lc.defs[key.id])  # re-bound (the duplicate label): every form it takes
             for form in forms:
                 have = _leaves(lc.expand(form))
+                if isinstance(key, ast.Name) and any(isinstance(x, ast.Name) and x.id == key.id for x in ast.walk(form)):
+                    # built from the key itself (`label = (x,) + label[1:]`): it carries what the other forms carry
+                    for other_form in forms:
+                        if other_form is not form and not any(isinstance(x, ast.Name) and x.id == key.id for x in ast.walk(other_form)):
+                            have = have + _leaves(lc.expand(other_form))
                 missing = [t for t in taken if not any(h == t or h.startswith(t + ".") for h in have)]
                 roots = {t.split(".")[0]: "<data>" for t in taken}
                 res.inst(f"merge_data: grouping key `{unparse(form)[:60]}` determines {[_role_text(t, roots) for t in taken]}", nontrivial=True, ok=not missing)
@@ -262,10 +276,20 @@ _KINDS = ("prisms", "layers")
 
 
 def drape_offsets(ctx, res):
-    from .c16 import _anchor, _leaves, _unwrapped
+    from .c16 import _anchor
 
     ci, fn0 = _anchor(ctx, "DrapeModelMerger", "create_object")
-    fn = ctx.view(fn0)
+    # the anchor with its helpers expanded, then whatever it reaches that cannot be expanded in place (a generator of blocks, a hook)
+    found = 0
+    for fn, recv in [(ctx.view(fn0), ci)] + reachable(ctx, fn0, ci):
+        found += _drape_offsets_in(ctx, res, fn, recv)
+    if not found:
+        raise AnalysisError("DrapeModelMerger.create_object: the in-place shift of an index column of the prisms / layers not found")
+
+
+def _drape_offsets_in(ctx, res, fn, ci) -> int:
+    from .c16 import _leaves, _unwrapped
+
     node, lc = prepared(ctx, fn, ci)
 
     # which locals hold (rows of) the prisms / the layers of an input
@@ -336,7 +360,7 @@ def drape_offsets(ctx, res):
                     sites.append((kind_of(n.targets[0].value), b, n))
                     break
     if not sites:
-        raise AnalysisError("DrapeModelMerger.create_object: the in-place shift of an index column of the prisms / layers not found")
+        return 0
     # the shifted array is the one that reaches the merged object: an input's whole prisms / layers array handed to a collection
     # (`<list>.append(a)`) is the very object an in-place shift was applied to (aliases count, a copy made before the shift is another object)
     from .c16 import _stmt_of, _stmts_in_order
@@ -378,9 +402,14 @@ def drape_offsets(ctx, res):
         if isinstance(tg, ast.Subscript) and isinstance(tg.value, ast.Name) and any(n is st for _k, _o, st in sites):
             shifted_objects.add(rep(tg.value.id, position.get(id(n), 0)))
     for c in ast.walk(node):
+        handed = None  # what is handed over for the merged object: `<collection>.append(a, ..)`, `yield a, ..`
         if isinstance(c, ast.Call) and isinstance(c.func, ast.Attribute) and c.func.attr == "append":
+            handed = list(c.args)
+        elif isinstance(c, ast.Yield) and c.value is not None:
+            handed = list(c.value.elts) if isinstance(c.value, (ast.Tuple, ast.List)) else [c.value]
+        if handed is not None:
             at = position.get(id(_stmt_of(node, c)), len(order))
-            for a in c.args:
+            for a in handed:
                 if isinstance(a, ast.Name) and kind_at(a.id) and whole_input_array(a.id, at):
                     ok = rep(a.id, at) in shifted_objects
                     ka = kind_at(a.id)
@@ -422,6 +451,7 @@ def drape_offsets(ctx, res):
                          f"{fn.module.relpath}:{getattr(s, 'lineno', st.lineno)}",
                          f"the index column of the {k} refers to the {other}: its offset must advance by the number of {other} already merged (or be read from the "
                          f"{k}' own shifted indices), not by {'the number' if how == 'count' else 'values'} of {bk} — from the second input on the {k} point at the wrong {other}")
+    return len(sites)
 
 
 # ---------------------------------------------------------------------- same inputs for geometry and data
